@@ -16,7 +16,8 @@ Driver for C12.
 
 Op lines:
   cb.new <ec|er|sr> <retryTimeoutMs> <minRequestAmount> <threshold: int for ec, f:<bits> for er/sr> <probeNum> <maxRtMs>
-  thread <tid> <call>+         call = tp | tpb | c:<rt>:ok | c:<rt>:err      (tids 0,1,2,… in order)
+  thread <tid> <item>+         item = tp | tpb | c:<rt>:ok | c:<rt>:err | rd:<timeout>:<minReq>:<threshold>:<probeNum>:<maxRt>
+                               (tids 0,1,2,… in order; `rd:` = LoadRules with that rule, one schedule step)
   sched <entry>*               entry = <tid> | tick:<ms>
   results | log | final
 -/
@@ -61,97 +62,179 @@ def parseEnt? (s : String) : Option Ent :=
   | ["tick", ms] => ms.toNat?.bind fun m => if m ≤ 1000000 then some (Ent.tick m) else none
   | _ => none
 
-def parseCfg? (ts : List String) : Option Cfg :=
+/-- the parameters of a rule as they stand in the op file -/
+structure RuleP where
+  kind : String
+  to : Nat
+  mr : Nat
+  pn : Nat
+  mx : Nat
+  thrN : Nat      -- ec: the threshold
+  thrF : Float    -- er / sr: the threshold
+
+def RuleP.cfg (r : RuleP) : Cfg :=
+  { timeout := r.to, minReq := r.mr, probeNum := r.pn, slowKind := r.kind == "sr", maxRt := r.mx,
+    trip := if r.kind == "ec" then (fun b _ => decide (r.thrN ≤ b)) else ratioTrip r.thrF }
+
+def parseRule? (kind : String) (ts : List String) : Option RuleP :=
   match ts with
-  | [kind, to, mr, thr, pn, mx] =>
+  | [to, mr, thr, pn, mx] =>
     match to.toNat?, mr.toNat?, pn.toNat?, mx.toNat? with
     | some to, some mr, some pn, some mx =>
       if to = 0 ∨ to > 100000 then none else
       match kind with
-      | "ec" => thr.toNat?.map fun k =>
-          { timeout := to, minReq := mr, probeNum := pn, slowKind := false, maxRt := mx, trip := fun b _ => decide (k ≤ b) }
-      | "er" => (parseFbits? thr).map fun f =>
-          { timeout := to, minReq := mr, probeNum := pn, slowKind := false, maxRt := mx, trip := ratioTrip f }
-      | "sr" => (parseFbits? thr).map fun f =>
-          { timeout := to, minReq := mr, probeNum := pn, slowKind := true, maxRt := mx, trip := ratioTrip f }
+      | "ec" => thr.toNat?.map fun k => ⟨kind, to, mr, pn, mx, k, 0.0⟩
+      | "er" => (parseFbits? thr).map fun f => ⟨kind, to, mr, pn, mx, 0, f⟩
+      | "sr" => (parseFbits? thr).map fun f => ⟨kind, to, mr, pn, mx, 0, f⟩
       | _ => none
     | _, _, _, _ => none
   | _ => none
 
-structure DS where
-  cfg : Option Cfg := none
-  sh : Sh := {}                      -- shared words: persist over the phases of a case
-  progs : List (List Call) := []     -- threads declared for the next `sched`
-  fin : Option (List Th) := none     -- threads of the last `sched` (all finished)
+def parseCfg? (ts : List String) : Option Cfg :=
+  match ts with
+  | kind :: rest => (parseRule? kind rest).map RuleP.cfg
+  | _ => none
 
-/-- the token of one granted step -/
-def token (i : Nat) (frm : String) (s s' : Sh) (t t' : Th) : String :=
-  let ls := (s'.log.drop s.log.length).map fun n => s!":L{stc n.prev}{stc n.to}"
-  let rs := (t'.res.drop t.res.length).map fun b => s!":R{tf b}"
-  s!"{i}:{frm}>{point t'.pc}:{stc s'.st}:{dls s'.deadline}:{s'.probe}:{s'.clock}{String.join ls}{String.join rs}"
+/-- `Rule.isEqualsTo` (same strategy): base fields, threshold up to `util.Float64Equals`, MaxAllowedRtMs only for sr -/
+def ruleEq (a b : RuleP) : Bool :=
+  a.kind == b.kind && a.to == b.to && a.mr == b.mr && a.pn == b.pn &&
+  (if a.kind == "sr" then a.mx == b.mx else true) &&
+  (if a.kind == "ec" then a.thrN == b.thrN else (a.thrF - b.thrF).abs < eps)
+
+/-- rule identity: the index of the first rule seen in this case that is `isEqualsTo` it -/
+def ridOf (rules : List RuleP) (r : RuleP) : Nat × List RuleP :=
+  match (List.range rules.length).zip rules |>.find? fun p => ruleEq p.2 r with
+  | some p => (p.1, rules)
+  | none => (rules.length, rules ++ [r])
+
+structure DS where
+  kind : String := ""
+  rules : List RuleP := []            -- rid = index
+  w : World := {}                     -- the breaker objects: persist over the phases of a case
+  glog : List Note := []              -- listener calls in call order, with the harness thread's id
+  progs : List (List WCall) := []     -- threads declared for the next `sched`
+  fin : Option (List WT) := none      -- threads of the last `sched` (all finished)
+
+def parseWCall? (s : DS) (tok : String) : Option (WCall × DS) :=
+  match tok.splitOn ":" with
+  | "rd" :: rest =>
+    (parseRule? s.kind rest).map fun r =>
+      let (rid, rules) := ridOf s.rules r
+      (.reload r.cfg rid, { s with rules := rules })
+  | _ => (parseCall? tok).map fun c => (.call c, s)
+
+def parseProg? (s : DS) : List String → Option (List WCall × DS)
+  | [] => some ([], s)
+  | t :: r =>
+    match parseWCall? s t with
+    | none => none
+    | some (c, s') => (parseProg? s' r).map fun p => (c :: p.1, p.2)
+
+def objSh (w : World) (k : Nat) : Sh := match w.objs[k]? with | some o => o.conf.sh | none => {}
+
+def innerTh (w : World) (cur : Option (Nat × Nat)) : Option Th :=
+  cur.bind fun p => (w.objs[p.1]?).bind fun o => o.conf.th[p.2]?
+
+/-- the yield point a harness thread is parked at -/
+def wtPoint (w : World) (t : WT) : String :=
+  match t.atReload with
+  | some _ => "rd"
+  | none => match innerTh w t.cur with
+    | some th => point th.pc
+    | none => "done"
+
+/-- the token of one granted step: the words printed are those of the object the step acted on (the object the
+    thread's call was bound to when the step began; for a step that only binds / reloads: the object bound
+    afterwards, else the live one), followed by the live object's words when that is another one -/
+def token (i : Nat) (frm : String) (w w' : World) (t t' : WT) : String :=
+  let x := match t.cur with
+    | some p => p.1
+    | none => match t'.cur with | some p => p.1 | none => w'.live
+  let s' := objSh w' x
+  let v := if w'.live ≠ x then
+      let l := objSh w' w'.live
+      s!":V{w'.live},{stc l.st},{dls l.deadline},{l.probe}" else ""
+  let nw := if w'.objs.length > w.objs.length then
+      match w'.objs[w'.live]? with
+      | some o => s!":N{w'.live},{o.cfg.timeout},{o.cfg.probeNum}"
+      | none => ""
+    else ""
+  let ls := match t.cur with
+    | some p => ((objSh w' p.1).log.drop (objSh w p.1).log.length).map fun n => s!":L{stc n.prev}{stc n.to}"
+    | none => []
+  let rs := match t.cur, innerTh w t.cur, innerTh w' t.cur with
+    | some _, some a, some b => (b.res.drop a.res.length).map fun r => s!":R{tf r}"
+    | _, _, _ => []
+  s!"{i}:{frm}>{wtPoint w' t'}:o{x}:{stc s'.st}:{dls s'.deadline}:{s'.probe}:{s'.clock}{v}{nw}{String.join ls}{String.join rs}"
+
+/-- listener calls made in a step of harness thread `i` -/
+def newCalls (i : Nat) (w w' : World) (t : WT) : List Note :=
+  match t.cur with
+  | some p => ((objSh w' p.1).log.drop (objSh w p.1).log.length).map fun n => ⟨n.prev, n.to, i⟩
+  | none => []
+
+structure RS where
+  c : WConf
+  glog : List Note
+  toks : List String
 
 /-- one schedule entry on the model, with its trace token (none: tick or skipped entry) -/
-def execT (cfg : Cfg) (c : Conf) (e : Ent) : Conf × Option String :=
+def execT (r : RS) (e : Ent) : RS :=
   match e with
-  | .tick _ => (c.exec cfg e, none)
+  | .tick _ => { r with c := r.c.exec e }
   | .t i =>
-    match c.th[i]? with
-    | none => (c, none)
+    match r.c.ths[i]? with
+    | none => r
     | some t =>
-      if t.pc = .done then (c, none) else
-      let c' := c.exec cfg e
-      match c'.th[i]? with
-      | some t' => (c', some (token i (point t.pc) c.sh c'.sh t t'))
-      | none => (c', none)
+      if wtPoint r.c.w t = "done" then r else
+      let c' := r.c.exec e
+      match c'.ths[i]? with
+      | some t' => { c := c', glog := r.glog ++ newCalls i r.c.w c'.w t,
+                     toks := r.toks ++ [token i (wtPoint r.c.w t) r.c.w c'.w t t'] }
+      | none => { r with c := c' }
 
-def allDone (c : Conf) : Bool := c.th.all fun t => t.pc = .done
+def allDone (c : WConf) : Bool := c.ths.all fun t => wtPoint c.w t = "done"
 
 /-- the scheduler's drain: one step each, round-robin, until everybody has finished -/
-def drain (cfg : Cfg) : Nat → Conf → List String → Conf × List String
-  | 0, c, acc => (c, acc)
-  | fuel + 1, c, acc =>
-    if allDone c then (c, acc) else
-    let (c', acc') := (List.range c.th.length).foldl (fun (p : Conf × List String) i =>
-      let (c2, tk) := execT cfg p.1 (.t i)
-      (c2, match tk with | some s => p.2 ++ [s] | none => p.2)) (c, acc)
-    drain cfg fuel c' acc'
+def drain : Nat → RS → RS
+  | 0, r => r
+  | fuel + 1, r =>
+    if allDone r.c then r else
+    drain fuel ((List.range r.c.ths.length).foldl (fun r i => execT r (.t i)) r)
 
-/-- the initial advance, with tokens -/
-def startT (cfg : Cfg) (s0 : Sh) (progs : List (List Call)) : Conf × List String :=
-  let c := initFrom cfg s0 progs
-  -- the tokens show the shared words after each thread's own prelude: recompute them incrementally
-  let (_, _, toks) := progs.foldl (fun (p : Sh × Nat × List String) prog =>
-    let (s, i, acc) := p
-    let r := begin cfg s [] prog
-    (r.1, i + 1, acc ++ [token i "start" s r.1 ⟨.done, [], []⟩ r.2])) (s0, 0, [])
-  (c, toks)
+/-- the initial advance (`wstart`), with tokens -/
+def startT (w : World) (glog : List Note) (progs : List (List WCall)) : RS :=
+  let c : WConf := { w := (wstart w progs).1, ths := (wstart w progs).2 }
+  -- tokens: replay the same advances one by one to see the words after each thread's own prelude
+  let (_, _, toks) := progs.foldl (fun (p : World × Nat × List String) prog =>
+    let (w, i, acc) := p
+    let r := advance w { todo := prog }
+    (r.1, i + 1, acc ++ [token i "start" w r.1 {} r.2])) (w, 0, [])
+  { c := c, glog := glog, toks := toks }
 
-def runModel (cfg : Cfg) (s0 : Sh) (progs : List (List Call)) (es : List Ent) : Conf × List String :=
-  let (c0, tk0) := startT cfg s0 progs
-  let (c1, tk1) := es.foldl (fun (p : Conf × List String) e =>
-    let (c2, tk) := execT cfg p.1 e
-    (c2, match tk with | some s => p.2 ++ [s] | none => p.2)) (c0, tk0)
-  drain cfg 10000 c1 tk1
+def runModel (w : World) (glog : List Note) (progs : List (List WCall)) (es : List Ent) : RS :=
+  drain 10000 (es.foldl execT (startT w glog progs))
 
 def stepModel (s : DS) (ts : List String) (_ : String) : DS × Option String :=
   match ts with
-  | "cb.new" :: rest =>
-    match parseCfg? rest with
-    | some cfg => ({ cfg := some cfg }, none)
+  | "cb.new" :: kind :: rest =>
+    match parseRule? kind rest with
+    | some r => ({ kind := kind, rules := [r], w := ({} : World).reload r.cfg 0 false }, none)
     | none => (s, some "bad-op")
   | "thread" :: tid :: calls =>
-    match s.cfg, tid.toNat?, calls.mapM parseCall? with
-    | some _, some i, some cs =>
-      if i = s.progs.length ∧ ¬ cs.isEmpty ∧ i < 8 then ({ s with progs := s.progs ++ [cs] }, none)
+    match tid.toNat?, parseProg? s calls with
+    | some i, some (cs, s') =>
+      if s.kind ≠ "" ∧ i = s.progs.length ∧ ¬ cs.isEmpty ∧ i < 8 then ({ s' with progs := s.progs ++ [cs] }, none)
       else (s, some "bad-op")
-    | _, _, _ => (s, some "bad-op")
-  | "sched" :: es =>
-    match s.cfg, es.mapM parseEnt? with
-    | some cfg, some es =>
-      if es.length > 400 then (s, some "bad-op") else
-      let (c, tks) := runModel cfg s.sh s.progs es
-      ({ s with sh := c.sh, progs := [], fin := some c.th }, some (if tks.isEmpty then "-" else " ".intercalate tks))
     | _, _ => (s, some "bad-op")
+  | "sched" :: es =>
+    match es.mapM parseEnt? with
+    | some es =>
+      if s.kind = "" ∨ es.length > 400 then (s, some "bad-op") else
+      let r := runModel s.w s.glog s.progs es
+      ({ s with w := r.c.w, glog := r.glog, progs := [], fin := some r.c.ths },
+       some (if r.toks.isEmpty then "-" else " ".intercalate r.toks))
+    | none => (s, some "bad-op")
   | ["results"] =>
     match s.fin with
     | some th => (s, some (if th.isEmpty then "-" else " ".intercalate ((List.range th.length).zip th |>.map fun (i, t) =>
@@ -159,11 +242,13 @@ def stepModel (s : DS) (ts : List String) (_ : String) : DS × Option String :=
     | none => (s, some "bad-op")
   | ["log"] =>
     match s.fin with
-    | some _ => (s, some (showList (s.sh.log.map noteS)))
+    | some _ => (s, some (showList (s.glog.map noteS)))
     | none => (s, some "bad-op")
   | ["final"] =>
     match s.fin with
-    | some _ => (s, some s!"st={stc s.sh.st} dl={dls s.sh.deadline} probe={s.sh.probe} clk={s.sh.clock}")
+    | some _ =>
+      let l := objSh s.w s.w.live
+      (s, some s!"st={stc l.st} dl={dls l.deadline} probe={l.probe} clk={l.clock} live={s.w.live}")
     | none => (s, some "bad-op")
   | _ => (s, some "bad-op")
 
@@ -173,38 +258,73 @@ structure Rec where
   tid : Nat
   frm : String
   to : String
+  obj : Nat                                   -- the object whose words follow
   st : St
   dl : Nat
   probe : Nat
   clk : Nat
+  live : Option (Nat × St × Nat × Nat)        -- the live object's words when it is another one
+  created : Option (Nat × Nat × Nat)          -- this step (a reload) created object k with (timeout, probeNum)
   logs : List (St × St)
   ress : List Bool
 
+def parseV? (x : String) : Option (Nat × St × Nat × Nat) :=
+  if x.startsWith "V" then
+    match (x.drop 1).toString.splitOn "," with
+    | [k, st, dl, pr] =>
+      match k.toNat?, stOf? st, (if dl = "-" then some 0 else dl.toNat?), pr.toNat? with
+      | some k, some st, some dl, some pr => some (k, st, dl, pr)
+      | _, _, _, _ => none
+    | _ => none
+  else none
+
+def parseN? (x : String) : Option (Nat × Nat × Nat) :=
+  if x.startsWith "N" then
+    match (x.drop 1).toString.splitOn "," with
+    | [k, to, pn] =>
+      match k.toNat?, to.toNat?, pn.toNat? with
+      | some k, some to, some pn => some (k, to, pn)
+      | _, _, _ => none
+    | _ => none
+  else none
+
 def parseRec? (tok : String) : Option Rec :=
   match tok.splitOn ":" with
-  | tid :: ft :: st :: dl :: pr :: clk :: extra =>
-    match tid.toNat?, ft.splitOn ">", stOf? st, (if dl = "-" then some 0 else dl.toNat?), pr.toNat?, clk.toNat? with
-    | some tid, [f, t], some st, some dl, some pr, some clk =>
+  | tid :: ft :: ob :: st :: dl :: pr :: clk :: extra =>
+    match tid.toNat?, ft.splitOn ">", (if ob.startsWith "o" then (ob.drop 1).toString.toNat? else none), stOf? st,
+          (if dl = "-" then some 0 else dl.toNat?), pr.toNat?, clk.toNat? with
+    | some tid, [f, t], some ob, some st, some dl, some pr, some clk =>
+      let vs := extra.filterMap parseV?
+      let ns := extra.filterMap parseN?
       let logs := extra.filterMap fun x =>
         match x.toList with
         | ['L', a, b] => match stOf? (String.singleton a), stOf? (String.singleton b) with
             | some a, some b => some (a, b) | _, _ => none
         | _ => none
       let ress := extra.filterMap fun x => if x = "Rt" then some true else if x = "Rf" then some false else none
-      if logs.length + ress.length = extra.length then some ⟨tid, f, t, st, dl, pr, clk, logs, ress⟩ else none
-    | _, _, _, _, _, _ => none
+      if vs.length + ns.length + logs.length + ress.length = extra.length ∧ vs.length ≤ 1 ∧ ns.length ≤ 1 then
+        some ⟨tid, f, t, ob, st, dl, pr, clk, vs.head?, ns.head?, logs, ress⟩
+      else none
+    | _, _, _, _, _, _, _ => none
   | _ => none
 
-structure OS where
+/-- per breaker object -/
+structure OO where
   st : St := .closed
+  dl : Nat := 0
   hist : List Note := []
-  owed : List Note := []
-  log : List Note := []
-  ress : List (Nat × Bool) := []
   openedAt : Nat := 0
   epoch : Nat := 0
   fresh : Bool := false
-  loads : List (Nat × Nat × Bool) := []   -- tid ↦ (epoch, fresh) at its last deadline load that passed
+  foreign : Bool := false    -- its words were seen to change without a step on it: nothing about it is attributed to a known finding
+
+structure OS where
+  objs : List OO := []
+  rules : List (Nat × Nat × Nat) := []          -- object ↦ (timeout, probeNum) of the rule it was built from
+  owed : List Note := []
+  log : List Note := []
+  ress : List (Nat × Bool) := []
+  loads : List (Nat × Nat × Nat × Bool) := []   -- tid ↦ (object, epoch, fresh) at its last deadline load that passed
   clk : Nat := 0
   trBad : Option String := none      -- transition rules
   nfBad : Option String := none      -- notification rules
@@ -215,38 +335,66 @@ structure OS where
 
 def orElse (a : Option String) (b : Option String) : Option String := match a with | some x => some x | none => b
 
-def lookupLoad (loads : List (Nat × Nat × Bool)) (tid : Nat) : Option (Nat × Bool) :=
+def lookupLoad (loads : List (Nat × Nat × Nat × Bool)) (tid : Nat) : Option (Nat × Nat × Bool) :=
   (loads.find? fun p => p.1 = tid).map (·.2)
 
+def getOO (o : OS) (k : Nat) : OO := (o.objs[k]?).getD ({} : OO)
+
+def setOO (o : OS) (k : Nat) (x : OO) : OS :=
+  { o with objs := (o.objs ++ List.replicate (k + 1 - o.objs.length) ({} : OO)).set k x }
+
 /-- fold one step record of the implementation's trace into the monitors -/
-def judgeRec (timeout probeNum : Nat) (o : OS) (r : Rec) : OS :=
-  let before := o.st
+def judgeRec (o : OS) (r : Rec) : OS :=
+  let o := match r.created with
+    | some n => { o with rules := n :: o.rules,
+                         trBad := orElse o.trBad (if r.frm ≠ "rd" then some "a breaker object appeared outside a rule reload" else none) }
+    | none => o
+  let rule := ((o.rules.find? fun p => p.1 = r.obj).map (·.2)).getD (0, 0)
+  let timeout := rule.1
+  let probeNum := rule.2
+  let oo := getOO o r.obj
+  let before := oo.st
   let changed := decide (r.st ≠ before)
   let o := { o with trBad := orElse o.trBad (if r.clk < o.clk then some "clock went backwards" else none), clk := r.clk }
+  -- a breaker object other than the one acted on must keep its words (a fresh object is Closed, no deadline)
+  let o := match r.live with
+    | some (k, st, dl, _) =>
+      let l := getOO o k
+      let o := { o with trBad := orElse o.trBad (
+          if st ≠ l.st then some s!"state word of breaker object {k} is {stc st} without a CAS on that object (expected {stc l.st})"
+          else if dl ≠ l.dl then some s!"deadline of breaker object {k} changed without a store on that object" else none) }
+      if st ≠ l.st ∨ dl ≠ l.dl then
+        setOO o k { l with st := st, dl := dl, foreign := true,
+                           openedAt := if st = St.opened ∧ l.st ≠ St.opened then r.clk else l.openedAt }
+      else o
+    | none => o
   -- transitions
-  let o :=
+  let (o, oo) :=
     if changed then
       let n : Note := ⟨before, r.st, r.tid⟩
       let bad := if r.frm ≠ "sc" then some s!"state word changed at {r.frm}, not at a CAS"
                  else if !legal before r.st then some s!"illegal edge {stc before}>{stc r.st}" else none
       let opening := r.st = .opened ∧ (r.to = "rs" ∨ r.to = "pr")     -- fromClosedToOpen / fromHalfOpenToOpen (not the rollback)
-      let o := { o with st := r.st, hist := o.hist ++ [n], owed := o.owed ++ [n], trBad := orElse o.trBad bad }
-      let o := if opening then { o with openedAt := r.clk, epoch := o.epoch + 1, fresh := false } else o
-      if before = .opened ∧ r.st = .halfOpen ∧ r.clk < o.openedAt + timeout then
+      let o := { o with owed := o.owed ++ [n], trBad := orElse o.trBad bad }
+      let oo := { oo with st := r.st, hist := oo.hist ++ [n] }
+      let oo := if opening then { oo with openedAt := r.clk, epoch := oo.epoch + 1, fresh := false } else oo
+      if before = .opened ∧ r.st = .halfOpen ∧ r.clk < oo.openedAt + timeout then
         match lookupLoad o.loads r.tid with
-        | some (ep, fr) =>
-          if ep ≠ o.epoch then { o with earlyStale := true }
-          else if !fr then { o with earlyNoDl := true } else { o with earlyOut := true }
-        | none => { o with earlyOut := true }
-      else o
-    else o
+        | some (ob, ep, fr) =>
+          if ob ≠ r.obj ∨ oo.foreign then ({ o with earlyOut := true }, oo)
+          else if ep ≠ oo.epoch then ({ o with earlyStale := true }, oo)
+          else if !fr then ({ o with earlyNoDl := true }, oo) else ({ o with earlyOut := true }, oo)
+        | none => ({ o with earlyOut := true }, oo)
+      else (o, oo)
+    else (o, oo)
   -- deadline store / load bookkeeping
-  let o := if r.frm = "rs" then
-      { o with fresh := true,
-               trBad := orElse o.trBad (if r.dl ≠ r.clk + timeout then some "deadline store is not now+timeout" else none) }
-    else o
+  let (o, oo) := if r.frm = "rs" then
+      ({ o with trBad := orElse o.trBad (if r.dl ≠ r.clk + timeout then some "deadline store is not now+timeout" else none) },
+       { oo with fresh := true, dl := r.dl })
+    else ({ o with trBad := orElse o.trBad (if r.dl ≠ oo.dl then some s!"deadline changed at {r.frm}, not at a deadline store" else none) }, oo)
   let o := if r.frm = "rl" ∧ r.to = "sc" then
-      { o with loads := (r.tid, o.epoch, o.fresh) :: o.loads.filter fun p => p.1 ≠ r.tid } else o
+      { o with loads := (r.tid, r.obj, oo.epoch, oo.fresh) :: o.loads.filter fun p => p.1 ≠ r.tid } else o
+  let o := setOO o r.obj oo
   -- listener calls of this step
   let o := r.logs.foldl (fun (o : OS) (p : St × St) =>
       let n : Note := ⟨p.1, p.2, r.tid⟩
@@ -255,8 +403,8 @@ def judgeRec (timeout probeNum : Nat) (o : OS) (r : Rec) : OS :=
                     nfBad := orElse o.nfBad (some s!"listener call {noteS n} without a CAS won by that thread with that prev") }) o
   -- TryPass results of this step
   r.ress.foldl (fun (o : OS) (b : Bool) =>
-      let okTrue := (r.frm = "sg" ∧ before = .closed) ∨ (r.frm = "sc" ∧ before = .opened ∧ r.st = .halfOpen)
-                    ∨ (probeNum > 0 ∧ r.frm = "sg" ∧ before = .halfOpen)
+      let okTrue := (r.frm = "sg" ∧ before = St.closed) ∨ (r.frm = "sc" ∧ before = St.opened ∧ r.st = St.halfOpen)
+                    ∨ (probeNum > 0 ∧ r.frm = "sg" ∧ before = St.halfOpen)
       { o with ress := o.ress ++ [(r.tid, b)],
                prBad := orElse o.prBad (if b ∧ ¬ okTrue then
                  some s!"thread {r.tid} admitted at {r.frm} while the state word was {stc before}" else none) }) o
@@ -290,8 +438,10 @@ def stepOracle (s : OD) (ts : List String) (line : String) : OD × Option String
       match (if r = "-" then some [] else (toks r).mapM parseRec?) with
       | none => ({ s with parseBad := true }, some "bad unreadable trace")
       | some recs =>
-        let o0 : OS := match s.os with | some o => { o with ress := [], loads := [] } | none => {}
-        let o := recs.foldl (judgeRec s.timeout s.probeNum) o0
+        let o0 : OS := match s.os with
+          | some o => { o with ress := [], loads := [] }
+          | none => { rules := [(0, s.timeout, s.probeNum)] }
+        let o := recs.foldl judgeRec o0
         ({ s with os := some o, lastN := s.nthreads, nthreads := 0 }, some (verdict o.trBad))
   | ["results"] =>
     match s.os, resPart line with
@@ -315,7 +465,7 @@ def stepOracle (s : OD) (ts : List String) (line : String) : OD × Option String
   | ["final"] =>
     match s.os with
     | some o =>
-      if o.epoch > 0 ∧ !o.fresh then (s, some "bad the breaker was opened but no retry deadline was stored afterwards")
+      if o.objs.any (fun x => x.epoch > 0 && !x.fresh) then (s, some "bad a breaker was opened but no retry deadline was stored afterwards")
       else if o.earlyOut then (s, some "bad probe admitted before a full retry timeout since the breaker opened")
       else if o.earlyNoDl then (s, some "known:open-without-deadline")
       else if o.earlyStale then (s, some "known:stale-retry-check")
@@ -334,9 +484,10 @@ def stepGhost (s : DS) (ts : List String) (line : String) : DS × Option String 
   | ["results"], some _ => (s', some "ok")
   | ["log"], some _ => (s', some "ok")
   | ["final"], some _ =>
-      (s', some (if s'.sh.earlyOut then "bad earlyOut"
-                 else if s'.sh.earlyNoDl then "known:open-without-deadline"
-                 else if s'.sh.earlyStale then "known:stale-retry-check" else "ok"))
+      let any (f : Sh → Bool) : Bool := s'.w.objs.any fun o => f o.conf.sh
+      (s', some (if any (·.earlyOut) then "bad earlyOut"
+                 else if any (·.earlyNoDl) then "known:open-without-deadline"
+                 else if any (·.earlyStale) then "known:stale-retry-check" else "ok"))
   | _, _ => (s', r)
 
 def run (mode : String) : IO Unit :=
